@@ -221,6 +221,25 @@ def world_focus_rounds():
     return w
 
 
+def world_focus_chain():
+    """C04/C10 (exhaustive cover): a header of the NEXT height that arrives while the node still votes on the height before it
+    (HandleProposedHeader backfills the commit from the header's previous-commit proof and starts over): one that extends
+    the block it commits (B2), one that names ANOTHER predecessor although its proof commits A1 (X2); a committing round that
+    holds precommits for two targets when the next height's header brings a late precommit for one of them (the round store
+    collection is rewritten); restarts after every write."""
+    w = base_world()
+    hdr = w["hdr"]
+    hdr["X2"] = {"h": 2, "prev": "B1", "vs": "G", "nvs": "G", "pcpR": 0, "pcpPkh": "G", "pcp": {"A1": ok(1, 2, 3)}, "data": "X2"}
+    V = [vote("precommit", 1, 0, {"A1": ok(1, 2, 3)}), vote("precommit", 1, 0, {"nil": ok(4)}),
+         vote("precommit", 2, 0, {"X2": ok(1, 2, 3)}), vote("precommit", 2, 0, {"B2": ok(1, 2, 3)})]
+    w["votes"] = S(V)
+    w["phs"] = S([ph("A1", 0, 1), ph("B2", 0, 2), ph("X2", 0, 1)])
+    w["replays"] = S([])
+    w["smentr"] = S([{"h": 1, "r": 0, "pub": 4}])
+    w["smvotes"] = S([])
+    return w
+
+
 def world_focus_valsets():
     """C07/C09/C06/C10 (exhaustive cover): the validator set shrinks at height 2 and grows back at height 3; late votes of the
     removed validator for the committing height; restarts at every height."""
@@ -250,7 +269,10 @@ def world_focus_conc():
          vote("precommit", 1, 1, {"nil": ok(1, 2)}), vote("precommit", 1, 0, {"A1": S([E(3), E(4, "flip")])}),
          # a vote for a FUTURE round: parked between the lookup (answer: future) and the add request while another
          # caller's votes move the voting round there or commit the height (Kernel.addFuture* looks the round up again)
-         vote("prevote", 1, 2, {"nil": ok(4)}), vote("precommit", 1, 2, {"nil": ok(3)})]
+         vote("prevote", 1, 2, {"nil": ok(4)}), vote("precommit", 1, 2, {"nil": ok(3)}),
+         # two targets in one message: between its lookup and its add request another caller moves one target's version, so
+         # the kernel applies the request PARTLY (one target accepted, one conflicting) and the caller's retry finds nothing new
+         vote("precommit", 1, 0, {"A1": ok(3), "nil": ok(4)})]
     w["votes"] = S(V)
     w["phs"] = S([ph("A1", 0, 1), ph("A1", 1, 2)])
     w["replays"] = S([])
@@ -310,7 +332,8 @@ def world_wide():
 
 WORLDS = {"wide": world_wide, "consumers": world_consumers, "happy": world_happy, "adversarial": world_adversarial, "equivocation": world_equivocation,
           "equivocation_heavy": lambda: world_equivocation((3, 1, 1, 2)), "replay": world_replay, "valsets": world_valsets,
-          "focus_rounds": world_focus_rounds, "focus_valsets": world_focus_valsets, "focus_conc": world_focus_conc}
+          "focus_rounds": world_focus_rounds, "focus_valsets": world_focus_valsets, "focus_conc": world_focus_conc,
+          "focus_chain": world_focus_chain}
 
 
 def to_sets(v):
